@@ -401,7 +401,7 @@ func init() {
 		Strategy string `json:"strategy"`
 		Kind     string `json:"kind"`
 	}
-	vh.AddPart("C12", "lock-interleavings", "sim", vh.Opts{Shards: 15, TimeoutS: 500, TimeoutSThorough: 2500},
+	vh.AddPart("C12", "lock-interleavings", "sim", vh.Opts{NoConfirm: true, Shards: 15, TimeoutS: 500, TimeoutSThorough: 2500},
 		func(e *vh.Env) []c12Sched {
 			var cs []c12Sched
 			for _, st := range allStrategies {
